@@ -88,6 +88,7 @@ def enumerate_ops(m, mi):
             ops += [(mi, n, 'val-donor', 1), (mi, n, 'val-donor', 2), (mi, n, 'val-same', 0)]
         elif k.startswith('optional_') and k.endswith('_property'):
             ops += [(mi, n, 'set-none', 0), (mi, n, 'val-donor', 1), (mi, n, 'val-donor', 3), (mi, n, 'val-same', 0)]
+            if n in ('leading_comment', 'trailing_comment'): ops += [(mi, n, 'val-paragraphs', 0)]
         elif k.startswith('repeated_') and k.endswith('_property') or k in ('repeated_raw_meta_item_property', 'repeated_meta_item_property'):
             try: ln = len(cur)
             except Exception: continue
@@ -158,6 +159,8 @@ def apply_op(f, op):
         if m is f: raise Refused('root property')
         setattr(m, n, f)
         raise AssertionError('C19: the root of the same document was accepted as a child')
+    if action == 'val-paragraphs':
+        setattr(m, n, 'p1\n\np2'); return m, ('val', n, 'p1\n\np2')       # a comment of two paragraphs: an empty comment line in between
     if action == 'val-same':
         setattr(m, n, cur); return m, ('val', n, cur)
     if action == 'val-donor':
@@ -179,7 +182,7 @@ def apply_op(f, op):
         key = keys[arg]
         if action == 'setkey': view[key] = mapping_value(view, m, n, key); return m, ('key', n, key)
         if action == 'delkey': del view[key]; return m, ('key', n, key)
-        view.pop(key); return m, ('key', n, key)
+        check_handed_out(view.pop(key), f'{n}.pop({key!r})'); return m, ('key', n, key)
     if action in ('unclaim-foreign', 'claim-foreign'):
         # a batch that names a comment of ANOTHER document next to this field's own comments: must be refused as a whole (C19)
         other = parse('\n; foreign\n\n2000-01-01 open Assets:Zz\n')
@@ -206,7 +209,7 @@ def apply_op(f, op):
     if action == 'ins-comment':
         view.insert(arg, models.BlockComment.from_value('inserted', indent='    ' if type(m).__name__ != 'File' else '')); return m, ('list', n)
     if action == 'ins': view.insert(arg, item()); return m, ('list', n)
-    if action == 'pop': view.pop(arg); return m, ('list', n)
+    if action == 'pop': check_handed_out(view.pop(arg), f'{n}.pop({arg})'); return m, ('list', n)
     if action == 'setitem': view[arg] = item(); return m, ('list', n)
     if action == 'append': view.append(item()); return m, ('list', n)
     if action == 'extend2': view.extend([item(1), item(2)]); return m, ('list', n)
@@ -238,6 +241,15 @@ def apply_op(f, op):
         view.insert(0, dview[0])
         raise AssertionError('C19: an item attached to another document was accepted')
     raise Refused(f'unknown action {action}')
+
+
+def check_handed_out(v, what):
+    """a node handed out by pop() leaves the document as a self-contained tree: valid in the store it reports, and that store holds exactly its tokens (C05)"""
+    if not isinstance(v, base.RawModel) or isinstance(v, base.RawTokenModel): return
+    if v.token_store is None: raise AssertionError(f'C05: {what} handed out a {type(v).__name__} without a store')
+    msg = tree.valid(v)
+    if msg: raise AssertionError(f'C05: {what} handed out a {type(v).__name__} that is not a valid tree of its own store: {msg}')
+    if [id(t) for t in v.token_store] != [id(t) for t in v.tokens]: raise AssertionError(f'C05: {what} handed out a {type(v).__name__} whose store holds other tokens than its own')
 
 
 def mapping_value(view, m, n, key=None):
@@ -388,7 +400,7 @@ def run_case(prop, docname, ops):
         except Refused:
             return None, 'skip'
         except AssertionError as e:
-            if prop == 'C19': return f'step {step} {op}: {e}', 'fail'
+            if prop == 'C19' or (prop == 'C05' and str(e).startswith('C05')): return f'step {step} {op}: {e}', 'fail'
             return None, 'skip'
         except Exception as e:
             # a refused operation must leave the document exactly as it was (C19)
@@ -434,10 +446,15 @@ def run(prop, tier, seed):
         docs = [d for d in docs if '+lead' not in d[0]]
     cases = list(all_single_ops(docs))
     if tier == 'quick' and len(cases) > 4500:
-        always = [c for c in cases if c[1][2] in ('unclaim-foreign', 'claim-foreign', 'set-root', 'root-ins', 'root-setitem', 'root-slice')      # rare refusal shapes: never sampled away
-                  or (c[1][2] == 'step-set' and c[0] in ('mixed-tags-links', 'txn2', 'meta-comments-postings', 'standalone-comments'))]
-        rest = [c for c in cases if c not in set(always)]
-        rnd.shuffle(rest); cases = always + rest[:max(0, 4500 - len(always))]
+        # rare shapes (refusals with the document's own root, foreign comment batches, extended slices, paragraph comments) get their own sample,
+        # so that they are never crowded out by the bulk of ordinary operations
+        RARE = ('unclaim-foreign', 'claim-foreign', 'set-root', 'root-ins', 'root-append', 'root-extend', 'root-setitem', 'root-slice', 'step-set', 'step-del', 'step-set-badlen', 'val-paragraphs')
+        rare = [c for c in cases if c[1][2] in RARE]; rest = [c for c in cases if c[1][2] not in RARE]
+        rnd.shuffle(rare); rnd.shuffle(rest)
+        by_action = {}
+        for c in rare: by_action.setdefault(c[1][2], []).append(c)
+        picked = [c for a_ in sorted(by_action) for c in by_action[a_][:150]]
+        cases = picked + rest[:4500]
     for name, op in cases:
         if not rep.mine((name, op)): continue
         try:
